@@ -1352,6 +1352,55 @@ class OpHarness:
                 pre.append((name, k, self.ghost_eval(it, cells_env, s, T["ghost_inv"], k)))
         return pre
 
+    def member_pre(self, it, ctx, cells_env, s, running=None, own_env=None):
+        """rely of the handler families: an ARBITRARY OTHER live member (ghost closure locals of the kinds the family declares in
+        `locals`) satisfies its member invariant before the step; `member_post` proves it still does afterwards - so the member
+        invariant, proved at creation, may be assumed in any later state.  Distinct members hold distinct `unique` objects."""
+        out = []
+        for name, F in getattr(self.c, "families", {}).items():
+            L = F.get("locals")
+            if not L or not F.get("inv"):
+                continue
+            genv = Env(cells_env, cells_env.module)
+            for n, kind in L.items():
+                if kind == "int":
+                    v = ctx.fresh(f"other_{n}", "int")
+                elif kind == "val":
+                    v = ctx.fresh(f"other_{n}", "val")
+                elif kind.startswith("ref"):
+                    t = ctx.fresh(f"other_{n}", "val").t
+                    ctx.assume(t != smt.NONE)
+                    if kind == "ref:subject":
+                        ctx.assume(z3.And(t != ABSENT, IS_SUBJ(t)))
+                    self.w.known(t)
+                    v = Opaque(kind[4:] if ":" in kind else "symref", f"other_{n}", term=t)
+                else:
+                    raise Unsupported(f"family local kind {kind}")
+                genv.vars[n] = v
+            if running == name and own_env is not None:
+                for n in F.get("unique", ()):
+                    ctx.assume(it.to_val(genv.vars[n]) != it.to_val(it.lookup(own_env, n)))
+            k = it.lookup(genv, F["id_local"]) if F.get("id_local") else (genv.vars[F["id_var"]] if F.get("id_var") else ctx.fresh("other_k", "int"))
+            before = self.check_inv(it, ctx, "", genv, s, extra={"k": k}, base=F["inv"])
+            ctx.assume(_bt(before))
+            out.append((name, genv, k))
+        return out
+
+    def member_post(self, it, ctx, uid, s, pre, done2):
+        for name, genv, k in pre:
+            after = self.check_inv(it, ctx, "", genv, s, extra={"k": k}, base=self.c.families[name]["inv"])
+            if not self.record(ctx, uid + f"/family[{name}]/the-invariant-of-every-other-live-member-is-kept", natives.mk_or(done2, after), kind="inv"):
+                import ast
+                body = ast.parse(self.c.families[name]["inv"], mode="eval").body
+                parts = [ast.unparse(v) for v in body.values] if isinstance(body, ast.BoolOp) and isinstance(body.op, ast.And) else []
+                bad = []
+                for cj in parts:
+                    t = self.check_inv(it, ctx, "", genv, s, extra={"k": k}, base=cj)
+                    v, _m, _b = smt.prove(ctx.pc, _bt(natives.mk_or(done2, t)))
+                    if v != "proved":
+                        bad.append(f"{cj} [{v}]")
+                ctx.results[-1].detail = "conjuncts not kept for another live member: " + "; ".join(bad)
+
     def ghost_post(self, it, ctx, uid, cells_env, s, pre):
         for name, k, before in pre:
             after = self.ghost_eval(it, cells_env, s, (self.c.timers.get(name) or self.c.families[name])["ghost_inv"], k)
@@ -1946,6 +1995,7 @@ class OpHarness:
             invd = self.check_inv(it, ctx, uid, cells_env, s, base=c.inv_done)
             ctx.assume(invd if not isinstance(invd, bool) else z3.BoolVal(invd))
         gpre = [] if is_done else self.ghost_pre(it, ctx, cells_env, s)
+        mpre = [] if is_done else self.member_pre(it, ctx, cells_env, s)
         # fresh traces
         self.begin_step(w, cells_env, s)
         if is_done:
@@ -2003,6 +2053,7 @@ class OpHarness:
                 ctx.results[-1].detail = self.explain_inv(it, ctx, cells_env, s, done2)
         self.done_established(it, ctx, uid, cells_env, s, done2)
         self.ghost_post(it, ctx, uid, cells_env, s, gpre)
+        self.member_post(it, ctx, uid, s, mpre, done2)
         v = self.spec_valid(it, ctx, s)
         if v is not None:
             self.record(ctx, uid + "/spec-state-invariant-preserved", v, kind="inv")
@@ -2137,6 +2188,7 @@ class OpHarness:
         elif getattr(c, "inv_done", None):
             invd = self.check_inv(it, ctx, uid, member_env, s, extra=extra, more=F.get("inv_done", F.get("inv")), base=c.inv_done)
             ctx.assume(invd if not isinstance(invd, bool) else z3.BoolVal(invd))
+        mpre = [] if is_done else self.member_pre(it, ctx, cells_env, s, running=fam, own_env=member_env)
         self.begin_step(w, cells_env, s)
         before = self.cell_identities(it)
         if is_done:
@@ -2176,6 +2228,7 @@ class OpHarness:
         inv2 = self.check_inv(it, ctx, uid, cells_env, s)
         done2 = self.spec_done(it, ctx, s)
         self.record(ctx, uid + "/inv-preserved", natives.mk_or(done2, inv2), kind="inv")
+        self.member_post(it, ctx, uid, s, mpre, done2)
         if F.get("once") and slot in (0, 2):
             # a member that ends with its first notification must be deaf to whatever its source sends afterwards: a source that
             # emits from inside subscribe cannot be stopped by disposing a subscription that does not exist yet
@@ -2282,6 +2335,7 @@ class OpHarness:
             g = self.ghost_eval(it, cells_env, s, T["ghost_inv"], ident)
             ctx.assume(g if not isinstance(g, bool) else z3.BoolVal(g))
         gpre = [] if is_done else self.ghost_pre(it, ctx, cells_env, s)
+        mpre = [] if is_done else self.member_pre(it, ctx, cells_env, s)
         self.fixed_time = True
         try:
             self.begin_step(w, cells_env, s)
@@ -2318,6 +2372,7 @@ class OpHarness:
             ctx.results[-1].detail = self.explain_inv(it, ctx, cells_env, s, done2)
         self.done_established(it, ctx, uid, cells_env, s, done2)
         self.ghost_post(it, ctx, uid, cells_env, s, gpre)
+        self.member_post(it, ctx, uid, s, mpre, done2)
 
     # -- driver -------------------------------------------------------------------------
     def run(self):
